@@ -32,4 +32,12 @@ var rejectTemplates = []string{
 	"a = '\\\n", "a = 'x' 'y\n", "a = \"\"\"x\"\"\n", "a = r'\\'\n" /* r'\' is unterminated */, "a = b'\\'\n", "x = 1 if 2 else 3 if\n", "not\n", "a not b\n", "a is is b\n", "a in in b\n", "a not not in b\n", "a is not not b\n" /* legal: a is not (not b) */, "a not in not b\n", /* legal */
 	"yield = 1\n", "class = 1\n", "def = 1\n", "x.class\n", "x.None\n", "x.True = 1\n", "None.x = 1\n" /* legal syntax */, "f(None=1)\n", "f(True=1)\n", "def f(None): pass\n", "def None(): pass\n", "class True: pass\n", "import None\n", "from a import None\n",
 	"import a as None\n", "for None in a: pass\n", "with a as True: pass\n", "lambda None: 0\n", "global None\n", "nonlocal True\n", "del True\n", "None += 1\n", "x = 1 = None\n", "(None) = 1\n", "[None] = [1]\n", "None, a = 1, 2\n", "a, *None = x\n",
+	// clause structure of compound statements: clauses missing, repeated or out of order
+	"try:\n    pass\nelse:\n    pass\nfinally:\n    pass\n", "try:\n    pass\nelse:\n    pass\n", "try:\n    pass\nfinally:\n    pass\nelse:\n    pass\n", "try:\n    pass\nfinally:\n    pass\nfinally:\n    pass\n",
+	"try:\n    pass\nexcept A:\n    pass\nelse:\n    pass\nelse:\n    pass\n", "try:\n    pass\nexcept A:\n    pass\nelse:\n    pass\nexcept B:\n    pass\n", "try:\n    pass\nexcept A:\n    pass\nfinally:\n    pass\nelse:\n    pass\n",
+	"try:\n    pass\nelif a:\n    pass\n", "if a:\n    pass\nelse:\n    pass\nelif b:\n    pass\n", "if a:\n    pass\nelse:\n    pass\nelse:\n    pass\n", "if a:\n    pass\nfinally:\n    pass\n", "if a:\n    pass\nexcept:\n    pass\n",
+	"for x in y:\n    pass\nelse:\n    pass\nelse:\n    pass\n", "for x in y:\n    pass\nelif a:\n    pass\n", "for x in y:\n    pass\nfinally:\n    pass\n", "while a:\n    pass\nelse:\n    pass\nelse:\n    pass\n", "while a:\n    pass\nelif b:\n    pass\n",
+	"with a:\n    pass\nelse:\n    pass\n", "with a:\n    pass\nfinally:\n    pass\n", "def f():\n    pass\nelse:\n    pass\n", "class A:\n    pass\nelse:\n    pass\n", "try:\n    pass\nexcept A, B:\n    pass\n", "try:\n    pass\nexcept A as b, C:\n    pass\n",
+	"try:\n    pass\nexcept A:\n    pass\nelse:\n    pass\nfinally:\n    pass\n" /* legal */, "try:\n    pass\nfinally:\n    pass\n" /* legal */, "def f():\n    try:\n        pass\n    else:\n        pass\n    finally:\n        pass\n",
+	"for x in y:\n    try:\n        pass\n    else:\n        continue\n    finally:\n        pass\n", "try: pass\nelse: pass\nfinally: pass\n",
 }
